@@ -56,7 +56,7 @@ func TestC15Reg_PacemakerThresholdBelowOneThird(t *testing.T) {
 	for _, i := range s.Honest() {
 		if r := s.R[i].B.Round; r != 1 {
 			t.Fatalf("VIOLATION: a single Byzantine validator holding 1/4 (< 1/3) of the power moved correct replica %d from round 0 to round %d with one pacemaker message (threshold used: %d of total %d)\nschedule: %s",
-				i, r, lib.Uint64ReducePercentage(s.VS.MinimumMaj23, 50), s.Total, s.Descriptor())
+				i, r, lib.Uint64ReducePercentage(s.VS.MinimumMaj23, 50), s.Total, bs.Wrap(s.Descriptor()))
 		}
 	}
 }
@@ -77,7 +77,7 @@ func TestC15Reg_WrongPhaseCertificateInCommitWedges(t *testing.T) {
 	s.RunRound(pol)
 	for _, i := range s.Honest() {
 		if s.R[i].Stuck {
-			t.Fatalf("VIOLATION: correct replica %d sits in COMMIT_PROCESS without a timer after a COMMIT message that carried a PROPOSE_VOTE certificate (controller gate: %v)\nschedule: %s", i, s.GateFails, s.Descriptor())
+			t.Fatalf("VIOLATION: correct replica %d sits in COMMIT_PROCESS without a timer after a COMMIT message that carried a PROPOSE_VOTE certificate (controller gate: %v)\nschedule: %s", i, s.GateFails, bs.Wrap(s.Descriptor()))
 		}
 	}
 }
@@ -108,7 +108,7 @@ func TestC15Reg_StaleElectionCertificateHijacksRounds(t *testing.T) {
 	}))
 	pr := s.LeaderMsg(D, 5, 0, "PR")
 	if pr == nil {
-		t.Fatalf("setup: D was not elected in round 0: %s", s.Descriptor())
+		t.Fatalf("setup: D was not elected in round 0: %s", bs.Wrap(s.Descriptor()))
 	}
 	if s.CommittedCorrect() > 0 {
 		t.Fatalf("setup: round 0 committed")
@@ -134,10 +134,10 @@ func TestC15Reg_StaleElectionCertificateHijacksRounds(t *testing.T) {
 	}
 	s.RunRound(pol)
 	if s.LeaderMsg(L, 5, 1, "PR") == nil {
-		t.Fatalf("setup: L did not propose in round 1: %s", s.Descriptor())
+		t.Fatalf("setup: L did not propose in round 1: %s", bs.Wrap(s.Descriptor()))
 	}
 	if s.CommittedCorrect() == 0 {
-		t.Fatalf("VIOLATION: the round of correct leader %d (all messages of correct replicas delivered) did not commit; a PROPOSE message of Byzantine validator %d for round 1 justified by its election certificate of round 0 was accepted=%v and replaced the leader's proposal\nschedule: %s", L, D, hijacked, s.Descriptor())
+		t.Fatalf("VIOLATION: the round of correct leader %d (all messages of correct replicas delivered) did not commit; a PROPOSE message of Byzantine validator %d for round 1 justified by its election certificate of round 0 was accepted=%v and replaced the leader's proposal\nschedule: %s", L, D, hijacked, bs.Wrap(s.Descriptor()))
 	}
 }
 
@@ -167,7 +167,7 @@ func TestC15Reg_HighQcWithoutBlockPoisonsLeader(t *testing.T) {
 	}))
 	pc := s.LeaderMsg(D, 5, 0, "PC")
 	if pc == nil || s.CertPower(pc.Msg.Qc) < 30 {
-		t.Fatalf("setup: no withheld certificate: %s", s.Descriptor())
+		t.Fatalf("setup: no withheld certificate: %s", bs.Wrap(s.Descriptor()))
 	}
 	// round 1: correct leader L; D's election vote carries the certificate as HighQc, but no block
 	pol := steer(s, 5, 1, L, []int{0, 1, 2}, func(e *bs.Env, to int) bool { return e.From != D && e.Kind != "PM" })
@@ -185,7 +185,7 @@ func TestC15Reg_HighQcWithoutBlockPoisonsLeader(t *testing.T) {
 	}
 	s.RunRound(pol)
 	if s.CommittedCorrect() == 0 {
-		t.Fatalf("VIOLATION: the round of correct leader %d did not commit: it adopted a HighQc reported WITHOUT its block by Byzantine validator %d (vote accepted=%v) and proposed a nil block\nschedule: %s", L, D, accepted, s.Descriptor())
+		t.Fatalf("VIOLATION: the round of correct leader %d did not commit: it adopted a HighQc reported WITHOUT its block by Byzantine validator %d (vote accepted=%v) and proposed a nil block\nschedule: %s", L, D, accepted, bs.Wrap(s.Descriptor()))
 	}
 }
 
@@ -235,7 +235,7 @@ func TestC15Reg_ElectionCertificateInPrecommitLocks(t *testing.T) {
 	}
 	s.RunRound(pol)
 	if !sentFake {
-		t.Fatalf("setup: D was not elected in round 0: %s", s.Descriptor())
+		t.Fatalf("setup: D was not elected in round 0: %s", bs.Wrap(s.Descriptor()))
 	}
 	locked := 0
 	for _, i := range s.Honest() {
@@ -246,7 +246,7 @@ func TestC15Reg_ElectionCertificateInPrecommitLocks(t *testing.T) {
 	// round 1: correct leader, everything the correct replicas say is delivered
 	s.RunRound(steer(s, 5, 1, L, []int{0, 1, 2}, func(e *bs.Env, to int) bool { return e.From != D && e.Kind != "PM" }))
 	if s.CommittedCorrect() == 0 {
-		t.Fatalf("VIOLATION: %d correct replicas locked on the ELECTION_VOTE certificate that Byzantine leader %d re-sent inside PRECOMMIT; in round 1 (correct leader %d, synchronous) their election votes were refused for carrying that lock and nothing committed\nschedule: %s", locked, D, L, s.Descriptor())
+		t.Fatalf("VIOLATION: %d correct replicas locked on the ELECTION_VOTE certificate that Byzantine leader %d re-sent inside PRECOMMIT; in round 1 (correct leader %d, synchronous) their election votes were refused for carrying that lock and nothing committed\nschedule: %s", locked, D, L, bs.Wrap(s.Descriptor()))
 	}
 }
 
@@ -289,11 +289,11 @@ func TestC15Reg_PartialCertificateStripsCommitBlock(t *testing.T) {
 	}
 	s.RunRound(pol)
 	if !sent {
-		t.Fatalf("setup: round 0 did not reach PRECOMMIT_VOTE: %s", s.Descriptor())
+		t.Fatalf("setup: round 0 did not reach PRECOMMIT_VOTE: %s", bs.Wrap(s.Descriptor()))
 	}
 	for _, i := range s.Honest() {
 		if s.R[i].Committed == nil {
-			t.Fatalf("VIOLATION: correct replica %d did not commit a round in which a correct leader and all correct replicas did everything right (stuck in COMMIT_PROCESS=%v); controller gate: %v\nschedule: %s", i, s.R[i].Stuck, s.GateFails, s.Descriptor())
+			t.Fatalf("VIOLATION: correct replica %d did not commit a round in which a correct leader and all correct replicas did everything right (stuck in COMMIT_PROCESS=%v); controller gate: %v\nschedule: %s", i, s.R[i].Stuck, s.GateFails, bs.Wrap(s.Descriptor()))
 		}
 	}
 }
@@ -337,11 +337,11 @@ func TestC15Reg_LockedProposalWithSlashesIsReproposable(t *testing.T) {
 	s.RunRound(steer(s, 5, 0, L, []int{0, 1, 2}, func(e *bs.Env, to int) bool { return e.From != D && e.Kind != "PCV" && e.Kind != "PM" }))
 	pr := s.LeaderMsg(L, 5, 0, "PR")
 	if pr == nil || pr.Msg.Qc.Results.SlashRecipients == nil || len(pr.Msg.Qc.Results.SlashRecipients.DoubleSigners) != 1 {
-		t.Fatalf("setup: the proposal of round 0 does not slash D: %s", s.Descriptor())
+		t.Fatalf("setup: the proposal of round 0 does not slash D: %s", bs.Wrap(s.Descriptor()))
 	}
 	for _, i := range s.Honest() {
 		if s.R[i].B.HighQC == nil {
-			t.Fatalf("setup: replica %d not locked: %s", i, s.Descriptor())
+			t.Fatalf("setup: replica %d not locked: %s", i, bs.Wrap(s.Descriptor()))
 		}
 	}
 	if s.CommittedCorrect() != 0 {
@@ -350,6 +350,6 @@ func TestC15Reg_LockedProposalWithSlashesIsReproposable(t *testing.T) {
 	// round 1: correct leader L2 re-proposes the lock; everything correct replicas say is delivered
 	s.RunRound(steer(s, 5, 1, L2, []int{0, 1, 2}, func(e *bs.Env, to int) bool { return e.From != D && e.Kind != "PM" }))
 	if s.CommittedCorrect() == 0 {
-		t.Fatalf("VIOLATION: every correct replica is locked on the round-0 proposal that slashes validator %d; correct leader %d re-proposed it in round 1 (synchronous, all messages delivered) and nothing committed - the evidence that justifies the slash is gone after NewRound()\nschedule: %s", D, L2, s.Descriptor())
+		t.Fatalf("VIOLATION: every correct replica is locked on the round-0 proposal that slashes validator %d; correct leader %d re-proposed it in round 1 (synchronous, all messages delivered) and nothing committed - the evidence that justifies the slash is gone after NewRound()\nschedule: %s", D, L2, bs.Wrap(s.Descriptor()))
 	}
 }
